@@ -6,6 +6,7 @@ import (
 	"encoding/json"
 	"fmt"
 	"strconv"
+	"sync"
 	"time"
 
 	"wa-lang.org/wa/api"
@@ -47,27 +48,26 @@ func Build(filename, waSrc string, marks map[string]int) (wasm, fset, wat []byte
 	return
 }
 
-// Job: run cases Case0..Case{N-1} of a Go-syntax source on the instrumented program, once per
-// entry of Poison.
+// Job: run cases Case0..Case{N-1} of a Go-syntax source on the instrumented program. Every case
+// is run once per entry of Poison, each mode on its own module instance (case i runs in all
+// modes before case i+1 starts).
 type Job struct {
-	Src    string
-	N      int
-	Poison []bool
-	Record bool // keep census records (KindIter, KindRun)
-	ClipOut int // > 0: keep only the last ClipOut bytes of each case's output
-}
-
-type ModeResult struct {
-	Poison bool
-	Cases  []CallResult
+	Src          string
+	N            int
+	Poison       []bool
+	Record       bool // keep census records (KindIter, KindRun)
+	ClipOut      int  // > 0: keep only the last ClipOut bytes of each case's output
+	CaseCPUS     int  // watchdog per call: CPU-seconds of the worker process (default 20)
+	MaxEvents    int64
 }
 
 type JobResult struct {
-	Err     string // the program as a whole failed (compile / instrument / assemble / engine)
-	ErrKind string // "go2wa" "build" "engine"
-	Modes   []ModeResult
-	TimingMs map[string]int64 // where the worker spent its time (diagnostic)
-	// totals over all modes: proof that the instrumentation saw traffic
+	Err      string         // the program as a whole failed (compile / instrument / assemble / engine)
+	ErrKind  string         // "go2wa" "build" "engine"
+	Cases    [][]CallResult // [case][mode]
+	Hung     bool           // a case hit the watchdog: later cases are "skipped", the worker must be retired
+	TimingMs map[string]int64
+	// totals over all instances: proof that the instrumentation saw traffic
 	NMalloc, NFree, NRetain, NRelease int64
 }
 
@@ -91,41 +91,286 @@ func HandleJob(raw json.RawMessage) interface{} {
 	}
 	lap("build")
 	out := JobResult{TimingMs: tm}
-	p, err := NewProgram("batch.wa", wasm, fset, false)
+	p, err := NewProgram("batch.wa", wasm, fset)
 	if err != nil {
 		return JobResult{Err: err.Error(), ErrKind: "engine"}
 	}
-	defer p.Close()
 	lap("engine")
 	p.OpKind = KindOp
+	p.MaxEvents = j.MaxEvents
+	if p.MaxEvents == 0 {
+		p.MaxEvents = 20_000_000
+	}
 	if j.Record {
 		p.RecordKinds = map[int]bool{KindIter: true, KindRun: true}
 	}
-	add := func() {
-		if mo := p.Monitor(); mo != nil {
+	cpuBudget := float64(j.CaseCPUS)
+	if cpuBudget == 0 {
+		cpuBudget = 20
+	}
+	insts := make([]*Instance, len(j.Poison))
+	for m, poison := range j.Poison {
+		insts[m] = p.NewInstance(poison)
+	}
+	var lastMon = make([]*Monitor, len(insts))
+	add := func(mo *Monitor) {
+		if mo != nil {
 			out.NMalloc += mo.NMalloc
 			out.NFree += mo.NFree
 			out.NRetain += mo.NRetain
 			out.NRelease += mo.NRelease
 		}
 	}
-	for _, poison := range j.Poison {
-		p.Reset(poison)
-		mr := ModeResult{Poison: poison, Cases: make([]CallResult, j.N)}
-		for i := 0; i < j.N; i++ {
-			mr.Cases[i] = p.Call("case_" + strconv.Itoa(i))
-			if o := mr.Cases[i].Out; j.ClipOut > 0 && len(o) > j.ClipOut {
-				mr.Cases[i].Out = o[len(o)-j.ClipOut:]
+	out.Cases = make([][]CallResult, j.N)
+	for i := 0; i < j.N; i++ {
+		out.Cases[i] = make([]CallResult, len(insts))
+		for m, in := range insts {
+			if out.Hung {
+				out.Cases[i][m] = CallResult{Status: "skipped"}
+				continue
 			}
-			if !p.Live() {
-				add() // the instance is gone after a trap: count its events now
+			cr := in.CallWatched("case_"+strconv.Itoa(i), cpuBudget, 15*time.Minute)
+			if cr.Status != "hang" {
+				if mo := in.Monitor(); mo != lastMon[m] { // a fresh module instance was made: count the old one
+					add(lastMon[m])
+					lastMon[m] = mo
+				}
+			}
+			if j.ClipOut > 0 && len(cr.Out) > j.ClipOut {
+				cr.Out = cr.Out[len(cr.Out)-j.ClipOut:]
+			}
+			out.Cases[i][m] = cr
+			if cr.Status == "hang" {
+				out.Hung = true
 			}
 		}
-		if p.Live() {
-			add()
+	}
+	lap("run")
+	if !out.Hung {
+		for _, mo := range lastMon {
+			add(mo)
 		}
-		lap("run")
-		out.Modes = append(out.Modes, mr)
+		p.Close()
 	}
 	return out
+}
+
+// ---------------------------------------------------------------------------------------------
+// Parent side: scheduling cases over the worker pool
+
+// Outcome of one logical case.
+type Outcome struct {
+	Modes   []CallResult // per poison mode; nil when the case could not be run
+	Fail    string       // whole-pipeline failure for this case alone (compile error, worker crash)
+	NotRun  bool         // the exploration was cut (deadline / hang budget)
+	HangRep int          // number of times the hang reproduced alone (Status "hang" only)
+}
+
+// Runner packs logical cases into programs, runs them in pool workers, and isolates cases that
+// make the whole program fail (bisection) or hang (the worker names the case; the hang is
+// re-run alone 5 times).
+type Runner struct {
+	Pool       *mc.Pool
+	Render     func(idx []int) string // the program whose Case<k> is logical case idx[k]
+	Poison     []bool
+	Record     bool
+	ClipOut    int
+	PerProgram int
+	MaxHangs   int // confirmed hangs after which the remaining skipped cases are not re-run
+	Expired    func() bool
+
+	mu     sync.Mutex
+	queue  [][]int
+	active int
+	cond   *sync.Cond
+	out    []Outcome
+	hangs  int
+
+	Capped                            string // why the exploration was cut, "" if complete
+	NMalloc, NFree, NRetain, NRelease int64
+	Programs, UnreproducedHangs       int
+}
+
+// InstallRetire makes the pool kill workers that reported a hang.
+func InstallRetire(p *mc.Pool) {
+	p.Retire = func(out json.RawMessage) bool {
+		var h struct{ Hung bool }
+		return json.Unmarshal(out, &h) == nil && h.Hung
+	}
+}
+
+func (rn *Runner) job(idx []int) (jr JobResult, bad string, status string) {
+	src := rn.Render(idx)
+	var x mc.Result
+	rn.Pool.Run(1, func(int) interface{} {
+		return Job{Src: src, N: len(idx), Poison: rn.Poison, Record: rn.Record, ClipOut: rn.ClipOut}
+	}, 60*time.Minute, func(y mc.Result) { x = y })
+	status = x.Status
+	if x.Status != "ok" {
+		return jr, "worker " + x.Status + ": " + tailStr(x.Stderr, 400), status
+	}
+	if err := json.Unmarshal(x.Out, &jr); err != nil {
+		return jr, "bad worker output: " + err.Error(), status
+	}
+	if jr.Err != "" {
+		return jr, jr.ErrKind + ": " + jr.Err, status
+	}
+	rn.mu.Lock()
+	rn.Programs++
+	rn.NMalloc += jr.NMalloc
+	rn.NFree += jr.NFree
+	rn.NRetain += jr.NRetain
+	rn.NRelease += jr.NRelease
+	rn.mu.Unlock()
+	return jr, "", status
+}
+
+func tailStr(s string, n int) string {
+	if len(s) > n {
+		return s[len(s)-n:]
+	}
+	return s
+}
+
+func (rn *Runner) push(idx []int) {
+	if len(idx) == 0 {
+		return
+	}
+	rn.mu.Lock()
+	rn.queue = append(rn.queue, idx)
+	rn.mu.Unlock()
+	rn.cond.Broadcast()
+}
+
+func (rn *Runner) process(idx []int, attempt int) {
+	jr, bad, status := rn.job(idx)
+	if bad != "" {
+		if len(idx) > 1 {
+			h := len(idx) / 2
+			rn.push(idx[:h])
+			rn.push(idx[h:])
+			return
+		}
+		if status != "ok" && attempt < 5 { // crash/hang of the whole worker must reproduce alone
+			rn.process(idx, attempt+1)
+			return
+		}
+		rn.out[idx[0]] = Outcome{Fail: bad}
+		return
+	}
+	for k, c := range idx {
+		modes := jr.Cases[k]
+		st := ""
+		for _, m := range modes {
+			if m.Status == "hang" || (m.Status == "skipped" && st == "") {
+				st = m.Status
+			}
+		}
+		switch st {
+		case "":
+			rn.out[c] = Outcome{Modes: modes}
+		case "hang":
+			rn.push(idx[k+1:]) // the cases after the culprit were skipped
+			rn.confirmHang(c, modes)
+			return
+		case "skipped":
+			rn.push(idx[k:]) // cannot happen before a hang; be safe
+			return
+		}
+	}
+}
+
+// confirmHang re-runs a case that hung inside a packed program alone, 5 times.
+func (rn *Runner) confirmHang(c int, first []CallResult) {
+	rep := 0
+	last := first
+	for a := 0; a < 5; a++ {
+		jr, bad, _ := rn.job([]int{c})
+		if bad != "" {
+			break
+		}
+		hung := false
+		for _, m := range jr.Cases[0] {
+			if m.Status == "hang" {
+				hung = true
+			}
+		}
+		if !hung {
+			// not reproducible alone: the packed run's hang depended on state left by earlier
+			// cases (they carry their own monitor verdicts); take the clean result
+			rn.mu.Lock()
+			rn.UnreproducedHangs++
+			rn.mu.Unlock()
+			rn.out[c] = Outcome{Modes: jr.Cases[0]}
+			return
+		}
+		rep++
+		last = jr.Cases[0]
+	}
+	rn.out[c] = Outcome{Modes: last, HangRep: rep}
+	rn.mu.Lock()
+	rn.hangs++
+	rn.mu.Unlock()
+}
+
+// Run executes logical cases 0..n-1 and returns their outcomes.
+func (rn *Runner) Run(n int) []Outcome {
+	rn.cond = sync.NewCond(&rn.mu)
+	rn.out = make([]Outcome, n)
+	for i := range rn.out {
+		rn.out[i].NotRun = true
+	}
+	if rn.MaxHangs == 0 {
+		rn.MaxHangs = 6
+	}
+	for lo := 0; lo < n; lo += rn.PerProgram {
+		hi := min(lo+rn.PerProgram, n)
+		idx := make([]int, hi-lo)
+		for k := range idx {
+			idx[k] = lo + k
+		}
+		rn.queue = append(rn.queue, idx)
+	}
+	var wg sync.WaitGroup
+	for w := 0; w < mc.NWorkers(); w++ {
+		wg.Add(1)
+		go func() {
+			defer wg.Done()
+			for {
+				rn.mu.Lock()
+				for len(rn.queue) == 0 && rn.active > 0 {
+					rn.cond.Wait()
+				}
+				if len(rn.queue) == 0 {
+					rn.mu.Unlock()
+					rn.cond.Broadcast()
+					return
+				}
+				idx := rn.queue[0]
+				rn.queue = rn.queue[1:]
+				cut := ""
+				if rn.hangs >= rn.MaxHangs {
+					cut = fmt.Sprintf("hang budget: %d hangs confirmed, remaining skipped cases not re-run", rn.hangs)
+				} else if rn.Expired != nil && rn.Expired() {
+					cut = "deadline"
+				}
+				if cut != "" {
+					if rn.Capped == "" {
+						rn.Capped = cut
+					}
+					rn.mu.Unlock()
+					continue
+				}
+				rn.active++
+				rn.mu.Unlock()
+				rn.process(idx, 0)
+				rn.mu.Lock()
+				rn.active--
+				rn.mu.Unlock()
+				rn.cond.Broadcast()
+			}
+		}()
+	}
+	wg.Wait()
+	return rn.out
 }
